@@ -1,6 +1,7 @@
 import SnaxVerif.Lemmas.AccfgMove
 import SnaxVerif.Lemmas.AccfgLoopOverlap
 import SnaxVerif.Lemmas.AccfgLoopCarried
+import SnaxVerif.Props.C01
 /-!
 # C06 — setup/compute overlap keeps every launch's configuration
 
@@ -190,6 +191,14 @@ theorem overlap_preserves {cfg : Cfg} {b b' : Block} (h : Chain cfg b b') (st : 
   induction h with
   | refl => rfl
   | step hs _ ih => rw [ih, step_preserves hs]
+
+/-- **The accfg optimisation pipeline as a whole** (`accfg-dedup` followed by `accfg-config-overlap`, the order of the real flow):
+any chain of validated deduplication steps (C01) followed by any chain of validated overlap steps leaves the sequence of
+launches/awaits/calls and the registers every launch observes unchanged — for every execution. The check validates the steps of
+both passes on the same program: the input of the overlap chain is the real output of the dedup pass. -/
+theorem dedup_then_overlap_preserves {cfg : Cfg} {b b' b'' : Block} (h1 : C01.Chain cfg b b') (h2 : Chain cfg b' b'')
+    (st : St) : (execB cfg false b'' st).tr = (execB cfg false b st).tr := by
+  rw [overlap_preserves h2, C01.dedup_preserves h1]
 
 /-! ## Known finding D26 (loop-level overlap with several setups in the body)
 
